@@ -644,6 +644,11 @@ pub struct SqlCase {
     pub case: Case,
     /// bit i set = the i-th comparison leaf (in left-to-right order) is written literal-first
     pub rev: u32,
+    /// 0 = `FROM metrics`; 1 = `FROM (SELECT * FROM metrics) AS t` (the same columns through a derived
+    /// table); 2 = a derived table that redefines value_i64 as `0 - value_i64` under the same name:
+    /// the WHERE clause then speaks about the derived column, whose values are not the stored ones
+    #[serde(default)]
+    pub shape: u8,
 }
 
 fn sql_lit(kind: Kind, l: &Lit) -> Option<String> {
@@ -719,8 +724,29 @@ pub fn exec_sql(sc: &SqlCase) -> Outcome {
             return out;
         }
     };
+    // shape 2 needs the negation of every stored integer to be in the value domain
+    let negatable = cols[0].rows.iter().all(|r| r.map(|d| (-104..=104).contains(&d)).unwrap_or(true));
+    let shape = if sc.shape % 3 == 2 && !negatable { 0 } else { sc.shape % 3 };
+    // what the WHERE clause is true of: the stored rows, or (shape 2) rows whose value_i64 is negated
+    let truth = if shape == 2 {
+        let mut t = case.clone();
+        t.cols[0].rows = t.cols[0].rows.iter().map(|r| r.map(|d| -d)).collect();
+        t
+    } else {
+        case.clone()
+    };
     // no timestamp term: the extraction gives up on a conjunction that contains one
-    let sql = format!("SELECT * FROM metrics WHERE {}", wher);
+    let sql = match shape {
+        1 => {
+            out.class("from:derived-table-same-columns");
+            format!("SELECT * FROM (SELECT * FROM metrics) AS t WHERE {}", wher)
+        }
+        2 => {
+            out.class("from:derived-table-redefining-a-column");
+            format!("SELECT * FROM (SELECT (0 - value_i64) AS value_i64, value_f64, host FROM metrics) AS t WHERE {}", wher)
+        }
+        _ => format!("SELECT * FROM metrics WHERE {}", wher),
+    };
     thread_local! {
         static NODE: std::cell::RefCell<Option<(tokio::runtime::Runtime, Arc<cardinalsin::query::QueryNode>)>> = const { std::cell::RefCell::new(None) };
     }
@@ -756,8 +782,9 @@ pub fn exec_sql(sc: &SqlCase) -> Outcome {
     out.nontrivial = !verdict || (!preds.is_empty() && touches_endpoint(&case));
     if !verdict {
         out.class("verdict:prune");
-        if let Some(w) = box_satisfiable(&case) {
+        if let Some(w) = box_satisfiable(&truth) {
             let sig = match &case.pred {
+                _ if shape == 2 => "sql-extraction-prune-unsound:derived-column".to_string(),
                 P::And(..) | P::Or(..) | P::Not(..) => "sql-extraction-prune-unsound:tree".to_string(),
                 l => format!("sql-extraction-prune-unsound:{}", leaf_name(l)),
             };
@@ -875,7 +902,7 @@ pub fn def() -> PropDef {
                 Box::new(Sub::<Case> { name: "box", cases: |t| t.scale(500_000, 10), strategy: case_strategy, exec: exec_box }),
                 Box::new(Sub::<Case> { name: "endpoint-leaf", cases: |t| t.scale(200_000, 10), strategy: endpoint_strategy, exec: exec_box }),
                 Box::new(Sub::<CatCase> { name: "catalog", cases: |t| t.scale(20_000, 10), strategy: cat_strategy, exec: exec_catalog }),
-                Box::new(Sub::<SqlCase> { name: "sql-extraction", cases: |t| t.scale(60_000, 10), strategy: |t| (prop_oneof![1 => case_strategy(t), 1 => endpoint_strategy(t)], prop_oneof![1 => Just(0u32), 2 => any::<u32>()]).prop_map(|(case, rev)| SqlCase { case, rev }).boxed(), exec: exec_sql }),
+                Box::new(Sub::<SqlCase> { name: "sql-extraction", cases: |t| t.scale(60_000, 10), strategy: |t| (prop_oneof![1 => case_strategy(t), 1 => endpoint_strategy(t)], prop_oneof![1 => Just(0u32), 2 => any::<u32>()], prop_oneof![3 => Just(0u8), 1 => Just(1u8), 2 => Just(2u8)]).prop_map(|(case, rev, shape)| SqlCase { case, rev, shape }).boxed(), exec: exec_sql }),
             ]
         },
     }
